@@ -75,6 +75,13 @@ def model (line : String) : String :=
       let rs := (List.range 10).map fun k => s!"r{k}={showRecvd (received s.hist k)}"
       s!"st={s.idx} can={if sCanTransition s.idx g s.hist then 1 else 0} n={s.hist.length} " ++ " ".intercalate rs
     | _, _, _, _, _, _ => "bad-op"
+  | ["wsign", n, _t, excl, _msg] =>
+    match n.toNat?, parseNats excl with
+    | some n, some excl =>
+      let operating := (List.range' 1 n).filter (fun m => !excl.contains m)
+      let fin := operating.map fun m => s!"{m}:{finalIndex operating m}"
+      s!"dkg=ok final={showList fin} sig=ok"
+    | _, _ => "bad-op"
   | ["sign", n, t, excl, subsets, _msg] =>
     match n.toNat?, t.toNat?, parseNats excl, subsetsOf subsets with
     | some n, some _t, some excl, some subs =>
@@ -116,6 +123,13 @@ def monitor (op obs : String) : String :=
         else "FAIL signing-unadmitted-or-duplicate-message-or-wrong-CanTransition"
       | _, _, _ => "FAIL unparsable-observation"
     | _, _, _, _, _, _ => "FAIL bad-op"
+  | ["wsign", _n, _t, _excl, _msg] =>
+    match field o "dkg", field o "sig" with
+    | some d, some sg =>
+      if d ≠ "ok" then "FAIL dkg-failed"
+      else if sg = "ok" then "ok"
+      else "FAIL wallet-signing-with-stored-indexes:" ++ sg
+    | _, _ => "FAIL unparsable-observation"
   | ["sign", _n, _t, _excl, _subsets, _msg] =>
     match field o "dkg", field o "ks", field o "sigs" with
     | some d, some ks, some sigs =>
